@@ -424,6 +424,11 @@ class HealSparseMap(object):
         oldsize = len(self._sparse_map)
         newsize = oldsize + new_cov_pix.size*self._cov_map.nfine_per_cov
 
+        if not self._is_bit_packed and not self._sparse_map.flags.owndata:
+            # An array that does not own its memory (a map read from a file, the
+            # result of a reshape) cannot be resized in place.
+            self._sparse_map = self._sparse_map.copy()
+
         if self._is_wide_mask:
             self._sparse_map.resize((newsize, self._wide_mask_width), refcheck=False)
         else:
